@@ -34,7 +34,20 @@ fn classify_parse_failure(schema_text: &str) -> &'static str {
 }
 
 pub fn check_schema(schema_files: &[String], config_text: &str, scalars: &[(String, String)], allow_undefined: bool) -> Option<Vec<Violation>> {
-    let replay = json!({"property":"C10","kind":"schema","files":schema_files,"config":config_text,"scalars":scalars.iter().map(|(a,b)| json!([a,b])).collect::<Vec<_>>(),"allow_undefined":allow_undefined});
+    check_schema_plugins(schema_files, config_text, scalars, allow_undefined, 0)
+}
+
+/// `plugins`: 0 none, 1 model plugin, 2 model then graphql-scalars, 3 graphql-scalars then model (resolver printer only;
+/// the schema files must then define `directive @model(type: String) on OBJECT | FIELD_DEFINITION` themselves)
+pub fn check_schema_plugins(schema_files: &[String], config_text: &str, scalars: &[(String, String)], allow_undefined: bool, plugins: u8) -> Option<Vec<Violation>> {
+    crate::pipeline::RESOLVER_PLUGINS.with(|c| c.set(plugins));
+    let r = check_schema_inner(schema_files, config_text, scalars, allow_undefined, plugins);
+    crate::pipeline::RESOLVER_PLUGINS.with(|c| c.set(0));
+    r
+}
+
+fn check_schema_inner(schema_files: &[String], config_text: &str, scalars: &[(String, String)], allow_undefined: bool, plugins: u8) -> Option<Vec<Violation>> {
+    let replay = json!({"property":"C10","kind":"schema","files":schema_files,"config":config_text,"scalars":scalars.iter().map(|(a,b)| json!([a,b])).collect::<Vec<_>>(),"allow_undefined":allow_undefined,"plugins":plugins});
     let mk = |sig: String, detail: String| Violation { sig, detail, replay: replay.clone() };
     let mut all = TsDoc::default();
     for f in schema_files {
@@ -115,7 +128,7 @@ pub fn check_schema(schema_files: &[String], config_text: &str, scalars: &[(Stri
         // nothing else but the schema's types may be exported under a schema-like name: extra exports are tolerated
     }
     // ---- resolvers
-    out.extend(check_resolvers(&loaded, &ev, &cx, &mk));
+    out.extend(check_resolvers(&loaded, &ev, &cx, &mk, plugins != 0));
     for e in ev.errors.borrow().iter() {
         out.push(mk(format!("C10|evaluation-problem|{}", e.split(' ').take(3).collect::<Vec<_>>().join("-")), e.clone()));
     }
@@ -161,7 +174,7 @@ fn alias_ast<'a>(stmts: &'a [Stmt], name: &str) -> Option<(&'a Vec<(String, Opti
     })
 }
 
-fn check_resolvers(loaded: &ts::Loaded, ev: &Eval, cx: &RefCx, mk: &dyn Fn(String, String) -> Violation) -> Vec<Violation> {
+fn check_resolvers(loaded: &ts::Loaded, ev: &Eval, cx: &RefCx, mk: &dyn Fn(String, String) -> Violation, model_plugin: bool) -> Vec<Violation> {
     let mut out = vec![];
     let Some(m) = loaded.other_module else { return out };
     let root = loaded.prog.modules[m];
@@ -199,10 +212,27 @@ fn check_resolvers(loaded: &ts::Loaded, ev: &Eval, cx: &RefCx, mk: &dyn Fn(Strin
     let env = Rc::new(env);
     let evalc = |t: &TsTy| -> String { norm(&ts::canon(ev, &ev.eval(def.scope, t, &env))) };
     // what a resolver result / parent of GraphQL type looks like: ResolverOutput types, objects without __typename (inline bodies)
+    // with the model plugin: an object with @model(type: "X") is X; any other object is the Pick of its @model fields
+    // (possibly none); fields carrying @model need no resolver
+    let object_model_type = |d: &TypeDef| -> Option<String> {
+        if !model_plugin {
+            return None;
+        }
+        d.dirs.iter().find(|x| x.name.s == "model").and_then(|x| match x.arg("type") {
+            Some(Val::Str(s)) => Some(s.value.clone()),
+            _ => None,
+        })
+    };
     let obj_body_no_typename = |name: &str| -> Option<String> {
         let d = ix.ty(name)?;
+        if let Some(t) = object_model_type(d) {
+            return crate::refts::scalar_text_canon(&t).ok();
+        }
         let mut props: BTreeMap<String, String> = BTreeMap::new();
         for f in &d.fields {
+            if model_plugin && !f.dirs.iter().any(|x| x.name.s == "model") {
+                continue;
+            }
             props.insert(f.name.s.clone(), format!("{}: {}; ", f.name.s, cx.ty(&f.ty, Target::ResolverOutput).ok()?));
         }
         Some(format!("{{{}}}", props.values().cloned().collect::<String>()))
@@ -241,7 +271,8 @@ fn check_resolvers(loaded: &ts::Loaded, ev: &Eval, cx: &RefCx, mk: &dyn Fn(Strin
         match ix.kind(&tm.name) {
             Some(TKind::Object) => {
                 let d = ix.ty(&tm.name).unwrap();
-                let want_fields: BTreeSet<String> = d.fields.iter().map(|f| f.name.s.clone()).collect();
+                let whole_object_modelled = object_model_type(d).is_some();
+                let want_fields: BTreeSet<String> = d.fields.iter().filter(|f| !model_plugin || whole_object_modelled || !f.dirs.iter().any(|x| x.name.s == "model")).map(|f| f.name.s.clone()).collect();
                 let got_fields: BTreeSet<String> = fields.iter().map(|f| f.name.clone()).collect();
                 for k in want_fields.difference(&got_fields) {
                     out.push(mk("C10|resolvers|field-resolver-missing".into(), format!("Resolvers.{}.{k} is missing", tm.name)));
@@ -387,7 +418,7 @@ pub fn rename_type(doc: &mut TsDoc, old: &str, new: &str) {
 
 const SCALAR_TS: &[&str] = &["string", "number", "unknown", "Date", "string | number", "Record<string, unknown>", "Date | string", "bigint"];
 
-pub fn gen_case(rng: &mut Rng) -> (Vec<String>, String, Vec<(String, String)>, bool) {
+pub fn gen_case(rng: &mut Rng) -> (Vec<String>, String, Vec<(String, String)>, bool, u8) {
     let mut so = SchemaOpts::default_for(rng);
     so.descriptions = true;
     so.hostile_text = rng.coin();
@@ -420,6 +451,34 @@ pub fn gen_case(rng: &mut Rng) -> (Vec<String>, String, Vec<(String, String)>, b
     }
     let mut shaped = if rng.coin() { split_extensions(&schema, rng) } else { schema };
     crate::gen_schema::scalars_via_directive(&mut shaped, &mut scalars, SCALAR_TS, rng);
+    // the model plugin (resolver side): @model on whole objects (with a type) or on single fields
+    let mut plugins = 0u8;
+    if rng.chance(1, 4) && !shaped.defs.iter().any(|d| matches!(d, TsDef::Directive(dd) if dd.name.s == "model")) {
+        plugins = 1 + rng.below(3) as u8;
+        shaped.defs.push(TsDef::Directive(DirectiveDef { desc: None, p: P::none(), name: nm("model"), args: vec![InputValueDef { desc: None, name: nm("type"), ty: Ty::named("String"), default: None, dirs: vec![] }], repeatable: false, repeatable_p: P::none(), locations: vec![nm("OBJECT"), nm("FIELD_DEFINITION")] }));
+        let mut whole: BTreeSet<String> = BTreeSet::new();
+        for d in shaped.defs.iter_mut() {
+            let TsDef::Type(t) = d else { continue };
+            if t.kind != TKind::Object {
+                continue;
+            }
+            if !t.ext && rng.chance(1, 4) {
+                t.dirs.push(Dir::new("model", vec![("type", Val::str(rng.s(&["unknown", "string", "number | string"])))]));
+                whole.insert(t.name.s.clone());
+            }
+        }
+        for d in shaped.defs.iter_mut() {
+            let TsDef::Type(t) = d else { continue };
+            if t.kind != TKind::Object || whole.contains(&t.name.s) {
+                continue;
+            }
+            for f in t.fields.iter_mut() {
+                if rng.chance(1, 3) {
+                    f.dirs.push(Dir::new("model", vec![]));
+                }
+            }
+        }
+    }
     let allow = rng.chance(2, 3);
     let mut cfg = GenConfig::basic();
     cfg.scalars = scalars.clone();
@@ -434,7 +493,7 @@ pub fn gen_case(rng: &mut Rng) -> (Vec<String>, String, Vec<(String, String)>, b
     }
     files.retain(|f| !f.defs.is_empty());
     let texts = files.iter().map(|f| render_ts(f, None, Feat::plain())).collect();
-    (texts, config_text, scalars, allow)
+    (texts, config_text, scalars, allow, plugins)
 }
 
 pub fn run(ctx: &Ctx, rep: &mut Report) {
@@ -448,10 +507,11 @@ pub fn run(ctx: &Ctx, rep: &mut Report) {
     let n = ctx.budget(24_000, 300_000);
     for case in 0..n {
         let mut rng = ctx.rng("case", case);
-        let (files, config, scalars, allow) = gen_case(&mut rng);
-        rep.trace_case(|| json!({"property":"C10","kind":"schema","files":files,"config":config,"scalars":scalars.iter().map(|(a,b)| json!([a,b])).collect::<Vec<_>>(),"allow_undefined":allow}));
+        let (files, config, scalars, allow, plugins) = gen_case(&mut rng);
+        rep.trace_case(|| json!({"property":"C10","kind":"schema","files":files,"config":config,"scalars":scalars.iter().map(|(a,b)| json!([a,b])).collect::<Vec<_>>(),"allow_undefined":allow,"plugins":plugins}));
+        rep.count(&format!("resolver_plugins|{}", ["none", "model", "model+graphql-scalars", "graphql-scalars+model"][plugins as usize]));
         rep.eval();
-        match check_schema(&files, &config, &scalars, allow) {
+        match check_schema_plugins(&files, &config, &scalars, allow, plugins) {
             None => rep.count("skipped"),
             Some(vs) => {
                 rep.count("schemas_compared");
@@ -469,5 +529,5 @@ pub fn run(ctx: &Ctx, rep: &mut Report) {
 pub fn replay(case: &Value) -> Vec<Violation> {
     let files: Vec<String> = case["files"].as_array().map(|a| a.iter().filter_map(|x| x.as_str().map(|s| s.to_string())).collect()).unwrap_or_default();
     let scalars: Vec<(String, String)> = case["scalars"].as_array().map(|a| a.iter().map(|x| (x[0].as_str().unwrap_or("").to_string(), x[1].as_str().unwrap_or("").to_string())).collect()).unwrap_or_default();
-    check_schema(&files, case["config"].as_str().unwrap_or(""), &scalars, case["allow_undefined"].as_bool().unwrap_or(true)).unwrap_or_default()
+    check_schema_plugins(&files, case["config"].as_str().unwrap_or(""), &scalars, case["allow_undefined"].as_bool().unwrap_or(true), case["plugins"].as_u64().unwrap_or(0) as u8).unwrap_or_default()
 }
